@@ -111,6 +111,20 @@ def _after_other_parse(case, st):
     ns = sut.load()
 
     for blob in case['first']:
+        if isinstance(blob, dict):
+            # an ordinary earlier use of the library: write a program, read
+            # it back, load it, generate statistics, serialise again
+            try:
+                data0 = roundtrip.write_program(blob)
+                sut.read_records(data0)
+                t0 = ns.DiffX.from_bytes(data0)
+                t0.generate_stats()
+                t0.to_bytes()
+            except Exception:
+                pass
+
+            continue
+
         try:
             ns.DiffX.from_bytes(blob)
         except Exception:
@@ -150,6 +164,15 @@ def after_cases(draw):
     if draw(hs.booleans()):
         first.append(foreign.render(draw(foreign.docs(max_changes=1,
                                                       max_files=1))).data)
+
+    r = draw(hs.integers(0, 2))
+
+    if r == 1:
+        # only ordinary earlier uses
+        first = []
+
+    if r >= 1:
+        first.insert(0, draw(gen.programs(max_changes=2, max_files=2)))
 
     return {'first': first,
             'program': draw(gen.programs(max_changes=2, max_files=2))}
@@ -258,7 +281,9 @@ def _checks():
             budget={'quick': (16, 25), 'thorough': (16, 1500)},
             rule='in a freshly forked process: first parse 1-4 other files '
                  '(tiny or unindented preambles for every usual indent, '
-                 'hostile or truncated files, a foreign file), then write a '
+                 'hostile or truncated files, a foreign file) and/or make an '
+                 'ordinary earlier use of the library (write, read, load, '
+                 'statistics, serialise another generated program), then write a '
                  'generated program, read it back and run it through the '
                  'parse/serialise cycle: state the library keeps between '
                  'independent calls must not change the outcome; '
